@@ -35,6 +35,20 @@ func TestWrapError(t *testing.T) {
 		require.NoError(t, err)
 		assert.JSONEq(t, `{"code":400,"message":"open testdata/no-such-file: no such file or directory"}`, string(data))
 	})
+	t.Run("result that cannot be encoded", func(t *testing.T) {
+		_, err := json.Marshal(json.RawMessage(`{"a":}`))
+		require.Error(t, err)
+		out := WrapError(err)
+		assert.Equal(t, StatusUnprocessableEntity, out.Code)
+		assert.Equal(t, gobl.ErrMarshal.Key(), out.Key)
+		assert.Equal(t, err.Error(), out.Message)
+		_, err = json.Marshal(map[string]any{"a": func() {}})
+		require.Error(t, err)
+		out = WrapError(err)
+		assert.Equal(t, StatusUnprocessableEntity, out.Code)
+		assert.Equal(t, gobl.ErrMarshal.Key(), out.Key)
+		assert.Equal(t, "json: unsupported type: func()", out.Message)
+	})
 	t.Run("library error", func(t *testing.T) {
 		out := WrapError(gobl.ErrSignature.WithReason("no key"))
 		assert.Equal(t, StatusBadRequest, out.Code)
